@@ -127,6 +127,20 @@ def handlers : List (String × Handler) := [
     let g : Group Int := { gtype := ← getStr j "gtype", enc := ← parseEnc (← j.getObjVal? "enc"), cache := none }
     let r := getCoordinates g (← getInt j "k") (ctOf (← getStr j "ct"))
     pure (exceptToJson (fun (a : Annot Int) => Json.arr (a.map intsToJson).toArray) r)),
+  ("history", fun j => do
+    let g : Group Int := { gtype := ← getStr j "gtype", enc := ← parseEnc (← j.getObjVal? "enc"), cache := none }
+    let accs ← (← getArr j "accesses").toList.mapM (fun a => do
+      let p ← a.getArr?
+      match p.toList with
+      | [_] => pure Access.whole
+      | [_, k] => pure (Access.nth (← k.getInt?))
+      | _ => throw "access needs 1 or 2 entries")
+    let res := runHistory g (ctOf (← getStr j "ct")) accs
+    let f := fun (r : Except ErrKind (Obs Int)) => match r with
+      | .error e => Json.arr #[Json.str "err", Json.str e.toString]
+      | .ok (.whole gd) => Json.arr #[Json.str "ok", gdataToJson gd]
+      | .ok (.nth a) => Json.arr #[Json.str "ok", Json.arr (a.map intsToJson).toArray]
+    pure (okJson (Json.arr (res.map f).toArray))),
   ("freshCoordinates", fun j => do
     let gd ← parseGData (← j.getObjVal? "gd")
     let k ← getInt j "k"
